@@ -4,5 +4,5 @@
 import sys
 sys.path[:0] = ['/repo' + "/pulser-core", '/repo' + "/pulser-simulation", "/verif"]
 from symx.replay import replay
-sys.exit(replay(check='checks.c17', kernel='device', shape={'opt': [], 'virtual': True},
-                assignment={'clock': 1, 'mind': 64, 'maxd': 64, 'g_maxdet': '1/1', 'g_maxamp': '1/1', 'l_maxdet': '1/1', 'l_maxamp': '1/1', 'retarget': 0, 'fixedt': 0, 'bottom': '1/1', 'mindist': '0/1'}, label='k2:device_channel_ids'))
+sys.exit(replay(check='checks.c17', kernel='device', shape={'opt': ['mod'], 'virtual': True},
+                assignment={'clock': 1, 'mind': 64, 'maxd': 64, 'bw': '1/1', 'g_maxdet': '1/1', 'g_maxamp': '1/1', 'l_maxdet': '1/1', 'l_maxamp': '1/1', 'retarget': 0, 'fixedt': 0, 'bottom': '1/1', 'mindist': '0/1'}, label='k2:device_channel_ids'))
